@@ -25,7 +25,7 @@ TABLE.update({
                   "access path compared with the model (differential across access paths + model oracle)",
         text="Generated-input exploration of all documented access paths (eager and lazy: [:], [...], .data, read_data, "
              "iteration, every integer index, channel and file chunk streams with offsets, unscaled variants) on "
-             "thousands of generated files per run; each path is compared with content known by construction.",
+             "thousands of generated files per run (plain, DAQmx, scaled with every scale type, 100+ segment twin files); each path is compared with content known by construction, indices also descending and from the end.",
         note="Trusts vf/encode.py and the model; paths documented as unavailable in a mode are not exercised; chunk "
              "boundaries themselves are not asserted, only concatenation and offsets."),
     'C04': dict(
@@ -41,7 +41,7 @@ TABLE.update({
                   "of live channel/file chunk iterators; oracle = model + fresh-file chunk sequence; ddmin of the op list",
         text="Thousands of generated single-threaded histories (<=30 steps quick, <=50 thorough) interleave index, "
              "slice, window, partial iteration and next() on live generators; every result is checked against what a "
-             "fresh file yields and all iterators are drained to completion at teardown.",
+             "fresh file yields and all iterators are drained to completion at teardown; plain, DAQmx, long and twin-offset-table files.",
         note="Single-threaded only (documented). Trusts vf/encode.py; canonical chunk sequences come from a fresh open "
              "of the same bytes and are validated against the model."),
 })
@@ -62,7 +62,7 @@ TABLE.update({
                   "from the model",
         text="Crash-point enumeration: each generated file is cut at EVERY offset from 4 to its length (about 10^5 cut "
              "files per quick run) and read eagerly and lazily; values are non-zero and position-unique so invented data "
-             "cannot pass as a prefix.",
+             "cannot pass as a prefix. Includes files encoded with inherited metadata, DAQmx files and 100+ segment files (cuts in the last segments).",
         note="Trusts vf/encode.py for segment boundaries; the amount recovered inside the cut segment is a statistic; marker "
              "variant restricted as the statement says."),
 })
@@ -110,7 +110,7 @@ TABLE.update({
                   "an independent parser",
         text="Thousands (quick) to >10^5 (thorough) generated write programs are executed and read back; every channel must "
              "be the concatenation of what was written (dtype and bits for arrays, values for lists, exact microseconds for "
-             "datetimes) and every property the last value written with the TDMS type the statement prescribes.",
+             "datetimes) and every property the last value written with the TDMS type the statement prescribes. Programs include deliberately rejected calls in between, re-used and renamed writer objects, empty sessions, and a second phase that writes the TdmsGroup/TdmsChannel objects just read.",
         note="Rejected programs are outside the statement (acceptance rate measured, <95% = inconclusive); one type per "
              "channel; trusts vf/parse.py for type codes."),
     'C08': dict(
